@@ -1580,3 +1580,52 @@ def _chk_units_region_up(c):
 
 
 units_ehep_region_up = O.make(_gen_units_ehep_up, _chk_units_region_up, 'det.units_ehep_region_up')
+
+
+# ---- C17: strong pistons (the plastic wave overruns the elastic precursor, up >~ 0.09 cm/us for aluminium) ----
+# The returned profile, read from the piston outwards, must never rise: shocked material next to the piston,
+# the undisturbed state ahead of every wave.  Added after seeded C17-6 (np.digitize with decreasing bins swapped
+# the states exactly in this regime; the catalogue's pistons, up <= 0.03, never reach it).
+
+EPP_NEGATIVE_DENSITY = dict(model='hypo', gamma=2.490193000126321, c0=0.4254048589676147, s0=1.484379623334473,
+                            G=0.2009253137784984, Y=0.001677044210451121, rho0=3.546820758795593, up=0.1981164329966803)
+
+
+def _gen_epp_strong(rng):
+    if rng.random() < 0.03:
+        return dict(params=dict(EPP_NEGATIVE_DENSITY), t=1.0)      # recorded witness of the baseline defect (1 in 40 000 draws)
+    p = epp_params(rng)
+    p['up'] = rng.uniform(0.05, 0.18)
+    return dict(params=p, t=rng.uniform(0.2, 2.0))
+
+
+def _chk_epp_profile(c):
+    p, t = c['params'], c['t']
+    try:
+        s, a = _epp_real(p)
+    except Exception:
+        return None
+    lo, hi = sorted([a['wv_pl'] * t, a['wv_el'] * t])
+    if not (math.isfinite(lo) and math.isfinite(hi) and lo > 0):
+        return None
+    xs = [0.25 * lo, 0.75 * lo, 0.5 * (lo + hi), 1.25 * hi, 2.0 * hi]
+    f = _call(EPP, p, xs, t)
+    if f is None:
+        return None
+    rho = [float(v) for v in f['density']]
+    pr = [float(v) for v in f['pressure']]
+    if not all(map(math.isfinite, rho + pr)):
+        return None
+    if min(rho) < 0:
+        return _fail('EPpiston:strong-piston:negative-density',
+                     'up=%r model=%s c0=%r s0=%r: density %r behind the plastic wave (fsolve took the root beyond the pole of the '
+                     'Hugoniot 1 - s0 eta = 0)' % (p['up'], p['model'], p['c0'], p['s0'], min(rho)))
+    if abs(rho[-1] - p['rho0']) > 1e-9 * p['rho0']:
+        return _fail('EPpiston:far-field', 'up=%r: density %r ahead of every wave, rho0=%r' % (p['up'], rho[-1], p['rho0']))
+    if any(rho[i] < rho[i + 1] * (1 - 1e-12) for i in range(4)) or any(pr[i] < pr[i + 1] - 1e-12 * abs(pr[i + 1]) for i in range(4)):
+        return _fail('EPpiston:profile-rises', 'up=%r model=%s: density %r, pressure %r from the piston outwards (waves at %r, %r)'
+                     % (p['up'], p['model'], rho, pr, lo, hi))
+    return None
+
+
+epp_profile = O.make(_gen_epp_strong, _chk_epp_profile, 'det.epp_profile')
